@@ -195,6 +195,8 @@ class PTable(EngineBase):
                     # the identity re-check cannot read /proc/<pid>/stat for
                     # a reason that is neither "gone" nor "denied"
                     op["deny"] = rng.choice([24, 5, 12, 23])
+                if m == "send_signal" and rng.random() < 0.2:
+                    op["kw"] = True
                 return op
             if r < 0.72:
                 kind = rng.choice(["nice", "ionice", "rlimit", "affinity"])
@@ -213,6 +215,8 @@ class PTable(EngineBase):
                 else:
                     op["cpus"] = rng.choice([[0], [], [0, 0], [0, 1], [1],
                                              [99], [0, 99]])
+                if rng.random() < 0.3:
+                    op["kw"] = True
                 return op
             if r < 0.82:
                 return {"op": "is_running", "h": rng.randrange(64)}
@@ -229,7 +233,7 @@ class PTable(EngineBase):
                 return {"op": "wait0", "h": rng.randrange(64)}
             return {"op": "pid_exists", "n": rng.choice(pool + [0, -1])}
         if prop == "C02":
-            if world.get("pidns_foreign") and (r < 0.03 or 0.97 <= r < 0.985):
+            if world.get("pidns_foreign") and (r < 0.03 or 0.975 <= r < 0.985):
                 # (no children and no signals across PID namespaces)
                 return {"op": "is_running", "h": rng.randrange(64)}
             if r < 0.03:
@@ -266,6 +270,12 @@ class PTable(EngineBase):
             if r < 0.97:
                 return {"op": "get", "h": rng.randrange(64),
                         "m": rng.choice(["ppid", "name", "status"])}
+            if r < 0.975:
+                # waiting a moment for it (somebody else's zombie stays a
+                # zombie; an own child that has ended is reaped, which the
+                # reference follows)
+                return {"op": "wait0", "h": rng.randrange(64),
+                        "timeout": rng.choice([0, 0.02, 0.05])}
             if r < 0.985:
                 # calls in between that do not end anybody's life: the
                 # existence probe, SIGCONT, numbers the kernel refuses (EINVAL)
@@ -308,6 +318,10 @@ class PTable(EngineBase):
                 return {"op": "open_iter", "consume": rng.choice([1, 2])}
             return {"op": "iter", "consume": None}
         if prop == "C05":
+            if r < 0.04:
+                # a psutil.Popen object as the caller (its child may be
+                # reaped behind its back and the PID recycled)
+                return {"op": "new_popen"}
             if r < 0.30:
                 return {"op": "new", "slot": rng.randrange(64)}
             if r < 0.50:
@@ -854,12 +868,23 @@ class PTable(EngineBase):
                 k.deny = {"/proc/%d/stat" % h.pid: op["deny"]}
             try:
                 if m == "send_signal":
+                    if op.get("kw"):
+                        return p.send_signal(sig=op["sig"])
                     return p.send_signal(op["sig"])
                 return getattr(p, m)()
             finally:
                 k.deny = {}
         if kind == "set":
             m = op["m"]
+            if op.get("kw"):
+                # the same call with its value spelled as a keyword
+                if m == "nice":
+                    return p.nice(value=op["v"])
+                if m == "ionice":
+                    return p.ionice(ioclass=op["cls"], value=op["v"])
+                if m == "rlimit":
+                    return p.rlimit(op["res"], limits=tuple(op["lim"]))
+                return p.cpu_affinity(cpus=op["cpus"])
             if m == "nice":
                 return p.nice(op["v"])
             if m == "ionice":
@@ -889,7 +914,7 @@ class PTable(EngineBase):
             return getattr(p, op["m"])()
         if kind == "wait0":
             try:
-                return p.wait(0)
+                return p.wait(op.get("timeout", 0))
             except psutil.TimeoutExpired:
                 return "timeout"
         if kind == "str":
@@ -1335,6 +1360,17 @@ class PTable(EngineBase):
                                     sorted(info) if isinstance(info, dict)
                                     else info, sorted(want)))
                         break
+                    st.setdefault("info_held", {})[id(p)] = p
+            # the application keeps what an attrs pass yielded: whatever
+            # other passes run meanwhile, the attached dict stays attached
+            # (a later attrs pass may replace it with its own)
+            for p in list(st.get("info_held", {}).values()):
+                if not isinstance(getattr(p, "info", None), dict):
+                    self._V(st, "C04.attrs", ["info_lost_later"],
+                            "process_iter", "object for pid %d yielded by an "
+                            "attrs pass has lost its info dict after a later "
+                            "pass" % p.pid)
+                    st["info_held"].pop(id(p), None)
             # incarnation of objects created by this iteration
             for o in got:
                 if id(o) not in st["obj_inc"]:
